@@ -1103,7 +1103,7 @@ SuccCreate(kind, p, S) ==
                ELSE "ok"
         rec == [kind |-> kind, by |-> p, ks |-> g.ks, members |-> owners \cup {p},
                 kp |-> [q \in owners |-> CHOOSE i \in S : kps[i].owner = q],
-                ext |-> IF kind = "reinit" THEN 0 ELSE g.ext, joined |-> {}]
+                ext |-> IF kind = "reinit" THEN 0 ELSE g.ext, joined |-> {}, forged |-> FALSE]
     IN
     /\ "succ" \in Features /\ HasGroup(p) /\ kind \in {"reinit", "branch"} /\ S \subseteq SuccKps /\ Len(succ) < MaxSucc
     /\ succ' = IF res = "ok" THEN Append(succ, rec) ELSE succ
@@ -1111,13 +1111,29 @@ SuccCreate(kind, p, S) ==
     /\ Record("SuccCreate", p, args, res,
               IF res = "ok" THEN [succ |-> Len(succ) + 1, members |-> rec.members, ext |-> rec.ext] ELSE [x |-> 0])
 
+\* A forged successor: party p (a member or not) builds an ordinary group with the public parameters a successor
+\* of member r's group would have (announced group id, extensions, epoch 1 after adding the key packages S) but
+\* without the old group's resumption secret.  Nobody can join it as a successor.
+SuccForge(kind, p, r, S) ==
+    LET owners == {kps[i].owner : i \in S}
+        rec == [kind |-> kind, by |-> p, ks |-> NoSecrets, members |-> owners \cup {p},
+                kp |-> [q \in owners |-> CHOOSE i \in S : kps[i].owner = q],
+                ext |-> IF kind = "reinit" THEN 0 ELSE grp[r].ext, joined |-> {}, forged |-> TRUE]
+    IN
+    /\ "succ" \in Features /\ HasGroup(r) /\ kind \in {"reinit", "branch"} /\ S \subseteq SuccKps /\ S # {} /\ Len(succ) < MaxSucc
+    /\ p \notin owners /\ \A i, j \in S : i # j => kps[i].owner # kps[j].owner
+    /\ succ' = Append(succ, rec)
+    /\ SuccRest
+    /\ Record("SuccForge", p, [kind |-> kind, like |-> r, kps |-> SetToSortedSeq(S), ext |-> rec.ext], "ok",
+              [succ |-> Len(succ) + 1, members |-> rec.members, ext |-> rec.ext])
+
 \* q tries to join successor s through ReinitClient::join ("reinit"), Group::join_subgroup ("branch") or,
 \* without any old state, Client::join_group ("plain")
 SuccJoin(q, s, how) ==
     LET sg == succ[s]
-        res == IF how = "plain" THEN "err:succ"
+        res == IF how = "plain" THEN (IF sg.forged THEN "ok" ELSE "err:succ")   \* a forged successor is an ordinary group
                ELSE IF how = "reinit" /\ ~grp[q].frozen THEN "err:no-reinit"
-               ELSE IF how = sg.kind /\ grp[q].ks = sg.ks THEN "ok"
+               ELSE IF ~sg.forged /\ how = sg.kind /\ grp[q].ks = sg.ks THEN "ok"
                ELSE "err:succ"
     IN
     /\ "succ" \in Features /\ s \in 1..Len(succ) /\ q \in DOMAIN sg.kp /\ how \in {"reinit", "branch", "plain"}
@@ -1131,6 +1147,7 @@ SuccNext ==
     \/ \E p \in Parties : GenSuccKeyPackage(p)
     \/ \E p \in Parties : \E kind \in {"reinit", "branch"} : \E S \in SUBSET SuccKps : SuccCreate(kind, p, S)
     \/ \E q \in Parties : \E s \in 1..Len(succ) : \E how \in {"reinit", "branch", "plain"} : SuccJoin(q, s, how)
+    \/ \E p, r \in Parties : \E kind \in {"reinit", "branch"} : \E S \in SUBSET SuccKps : SuccForge(kind, p, r, S)
 
 ObsNext ==
     \/ \E p \in Parties : ObsJoin(p)
@@ -1182,6 +1199,7 @@ ObserverTracks ==
 SuccessorsLegal ==
     \A s \in 1..Len(succ) :
         LET sg == succ[s]  n == sg.ks IN
+        sg.forged \/
         \* the tree of the epoch the successor was created from: that of any member still in it, else unknown
         /\ \A p \in Parties : (HasGroup(p) /\ grp[p].ks = sg.ks) =>
                 /\ (sg.kind = "reinit" => (sg.members = Members(grp[p].tree) /\ grp[p].frozen))
